@@ -15,8 +15,8 @@ def ka_nontrivial(op, out):
 
 def ka_recv_parked(ops_prefix, impl=None, spec=None):
     """known-finding class F8: a client that stops reading AND keeps sending until its writes block (`deafflood`):
-    both rings of its connection fill up, the receiver waits for a read block of ring space, no socket read is
-    pending and so no read deadline is armed: keep-alive never fires"""
+    both rings of its connection fill up completely, the receiver waits because the incoming ring is full, no socket
+    read is pending and so no read deadline is armed: keep-alive never fires"""
     w = ops_prefix[-1].split()
     if len(w) != 3 or w[0] != 'ka' or w[1] != 'wait':
         return False
@@ -35,9 +35,9 @@ register(Prop(
     assumptions=[
         "real time, timers, net.Conn read deadlines and scheduler latency are outside the model: the arithmetic and the receiver's timed state machine are proved, the clock is trusted",
         "timed scenarios use K in {1,2} s with margins of -200 ms / +1500 ms around the computed deadline",
-        "the receiver re-issues a read as soon as one read block of ring space is free; the timed scenarios never fill the incoming "
-        "ring, the deaf ones (a subject that has stopped reading) fill the outgoing one (deafsub, deafecho) or both (deafflood: "
-        "no read pending, no deadline armed - open finding F8)",
+        "the receiver re-issues a read as long as the incoming ring is not completely full (8f682d1); the timed scenarios never fill "
+        "the incoming ring, the deaf ones (a subject that has stopped reading) fill the outgoing one (deafsub, deafecho) or both "
+        "(deafflood: incoming ring completely full, no read pending, no deadline armed - open finding F8)",
         "the deaf scenarios' model stream is computed on the connection life-cycle model of C16 (round-robin to the buffer "
         "condition, the read deadline fires if a read is pending, round-robin again); C19_timeout_tears_down is a theorem about "
         "that model under weak fairness, socket semantics are its parameters (a Close makes a blocked Write fail)",
